@@ -486,4 +486,74 @@ Section Search.
     unfold valid_path. apply path_ok_valid.
     replace (F st delta - delta) with m in PO by lia. rewrite FE in PO. exact PO.
   Qed.
+
+  (** *** the route table is not exhausted when (m+1)(n+1) <= route_size *)
+
+  Lemma step_len st st' k :
+    step_k A eqv a b size offset st k = Ok st' -> length (routes st') = S (length (routes st)).
+  Proof.
+    intros H. unfold step_k in H.
+    apply bind_ok in H as (pa & _ & H). apply bind_ok in H as (pp & _ & H).
+    apply bind_ok in H as ([s st1] & SN & H). inversion H; subst st'; clear H.
+    unfold snake in SN. apply bind_ok in SN as (c & _ & SN). inversion SN; subst. simpl.
+    rewrite app_length. simpl. lia.
+  Qed.
+
+  Lemma loop_up_len : forall cnt k st st',
+    loop_up A eqv cnt a b size offset k st = Ok st' -> length (routes st') = (length (routes st) + cnt)%nat.
+  Proof.
+    induction cnt as [|cnt IH]; intros k st st' L.
+    - simpl in L. inversion L. lia.
+    - simpl in L. apply bind_ok in L as (st1 & ST & L). apply IH in L. apply step_len in ST. lia.
+  Qed.
+
+  Lemma loop_down_len : forall cnt k st st',
+    loop_down A eqv cnt a b size offset k st = Ok st' -> length (routes st') = (length (routes st) + cnt)%nat.
+  Proof.
+    induction cnt as [|cnt IH]; intros k st st' L.
+    - simpl in L. inversion L. lia.
+    - simpl in L. apply bind_ok in L as (st1 & ST & L). apply IH in L. apply step_len in ST. lia.
+  Qed.
+
+  Lemma inv_round_bound p st : 0 <= p -> Inv p st -> p <= m.
+  Proof.
+    intros P0 [EO IO]. pose proof (zlen_nonneg A a).
+    destruct (Z.eq_dec p 0) as [->|NZ]; [lia|].
+    destruct (IO (1 - p)) as [O1 _]. destruct O1 as ((L1 & _) & _ & B2); [unfold oldlive; lia|]. lia.
+  Qed.
+
+  Lemma ploop_reaches_corner : forall fuel p st st',
+    0 <= p -> Inv p st -> Z.of_nat (length (routes st)) = p * (delta + p) ->
+    (m + 1) * (n + 1) <= route_size ->
+    ploop A eqv route_size fuel a b size p st = Ok st' ->
+    n <= F st' delta.
+  Proof.
+    induction fuel as [|fuel IH]; intros p st st' P0 I LEN RS L; [discriminate|].
+    simpl in L.
+    apply bind_ok in L as (st1 & L1 & L). apply bind_ok in L as (st2 & L2 & L). apply bind_ok in L as (st3 & L3 & L).
+    pose proof (loop_up_len _ _ _ _ L1) as N1. pose proof (loop_down_len _ _ _ _ L2) as N2.
+    pose proof (step_len _ _ _ L3) as N3.
+    pose proof (inv_round_bound _ _ P0 I) as PM.
+    apply loop_up_ok with (p := p) in L1; [|lia|lia|lia|apply inv_to_up; assumption].
+    apply up_to_down in L1; [|lia].
+    apply loop_down_ok with (p := p) in L2; [|lia|lia|lia|exact L1].
+    destruct (final_step _ _ _ P0 L2 L3) as (EO & LK & LE & NX).
+    fold (F st3 delta) in L.
+    assert (LEN3 : Z.of_nat (length (routes st3)) = (p + 1) * (delta + (p + 1))).
+    { rewrite N3, N2, N1. nia. }
+    destruct (F st3 delta >=? n) eqn:C1.
+    - simpl in L. inversion L; subst st'. rewrite Z.geb_leb in C1. apply Z.leb_le in C1. exact C1.
+    - rewrite Z.geb_leb in C1. apply Z.leb_gt in C1. simpl in L.
+      destruct (Z.of_nat (length (routes st3)) >? route_size) eqn:C2.
+      + apply Z.gtb_lt in C2. exfalso. nia.
+      + apply (IH (p + 1) st3 st'); try lia; auto.
+  Qed.
+
+  Lemma search_reaches_corner st :
+    (m + 1) * (n + 1) <= route_size ->
+    search A eqv route_size a b size = Ok st -> n <= fp st (delta + offset).
+  Proof.
+    intros RS S. unfold search in S.
+    apply ploop_reaches_corner in S; [exact S | lia | exact init_inv | simpl; lia | exact RS].
+  Qed.
 End Search.
